@@ -16,7 +16,8 @@ use std::collections::BTreeMap;
 #[derive(Clone, Copy, Debug, PartialEq, Eq)]
 pub enum Mention { Direct, Compressed, Free }
 #[derive(Clone, Debug)]
-pub struct SecPlan { stream_format: bool, mentions: Vec<(u32, Mention)>, split: bool, filter: u8, new_root: bool, grow: u32, keep_gen_on_free: bool,
+pub struct SecPlan { stream_format: bool, mentions: Vec<(u32, Mention)>, split: bool, filter: u8, new_root: bool, grow: u32, /// generation written for an entry that frees an object: 0 = old generation + 1, 1 = old generation, 2 = 65535 (number never to be re-used)
+    free_gen: u8,
     /// an update in stream format writes its cross-reference stream as a new version of the previous section's cross-reference stream object
     reuse_xref_nr: bool }
 #[derive(Clone, Debug)]
@@ -68,8 +69,9 @@ pub fn build(plan: &Plan) -> Built {
                 (Mention::Free, State::Value { gen, .. }) if n > 2 => {
                     // writers differ on the generation of a free entry (most add one; some, e.g. for objects that lived in an
                     // object stream, write the old generation): either way the object is free now
-                    state.insert(n, State::Free { gen: if sec.keep_gen_on_free { gen } else { gen + 1 } }); free_changed = true;
-                    if sec.keep_gen_on_free { labels.push("free-entry-keeps-generation".into()); }
+                    state.insert(n, State::Free { gen: match sec.free_gen { 1 => gen, 2 => 65535, _ => gen + 1 } }); free_changed = true;
+                    if sec.free_gen == 1 { labels.push("free-entry-keeps-generation".into()); }
+                    if sec.free_gen == 2 { labels.push("free-entry-generation-65535".into()); }
                     hist.entry(n).or_default().push((m, sec.stream_format));
                 }
                 (Mention::Free, State::Undefined) if si == 0 && n > 2 => {
@@ -78,6 +80,8 @@ pub fn build(plan: &Plan) -> Built {
                     hist.entry(n).or_default().push((m, sec.stream_format));
                 }
                 (Mention::Free, _) => {}
+                // a number freed with generation 65535 is never used again (7.5.4)
+                (_, State::Free { gen: 65535 }) => {}
                 (Mention::Compressed, State::Undefined) | (Mention::Compressed, State::Value { gen: 0, .. }) if sec.stream_format => {
                     members.push((n, body(n)));
                     state.insert(n, State::Value { rev, gen: 0 });
@@ -166,7 +170,7 @@ pub fn gen_plan(s: &mut Src, max_objs: u32, max_updates: u32) -> Plan {
         }
         // random order inside the section
         for i in (1..mentions.len()).rev() { let j = s.draw(i as u32 + 1) as usize; mentions.swap(i, j); }
-        sections.push(SecPlan { stream_format, mentions, split: s.draw(3) == 0, filter: s.draw(3) as u8, new_root: s.draw(6) == 0, grow: if s.draw(4) == 0 { 1 + s.draw(3) } else { 0 }, keep_gen_on_free: s.draw(3) == 0, reuse_xref_nr: s.draw(4) == 0 });
+        sections.push(SecPlan { stream_format, mentions, split: s.draw(3) == 0, filter: s.draw(3) as u8, new_root: s.draw(6) == 0, grow: if s.draw(4) == 0 { 1 + s.draw(3) } else { 0 }, free_gen: [0u8, 0, 0, 1, 1, 2][s.draw(6) as usize], reuse_xref_nr: s.draw(4) == 0 });
     }
     Plan { n_objs, sections }
 }
@@ -247,11 +251,12 @@ fn exhaustive(run: &Run, n_sections: usize) {
     // 2 tracked objects (3 and 4) x n sections x {absent, direct, compressed, free} x 2 formats
     let opts = [None, Some(Mention::Direct), Some(Mention::Compressed), Some(Mention::Free)];
     let per_sec = 2 * 4 * 4; // format x obj3 x obj4
-    let total = (per_sec as u64).pow(n_sections as u32) * (1 << n_sections) * (1 << n_sections);
+    let total = (per_sec as u64).pow(n_sections as u32) * 3u64.pow(n_sections as u32) * (1 << n_sections);
     par_for(total, |code| {
-        let code_keep = code % (1 << n_sections);
-        let code_reuse = (code >> n_sections) % (1 << n_sections);
-        let mut code = code >> (2 * n_sections);
+        let k3 = 3u64.pow(n_sections as u32);
+        let code_keep = code % k3;
+        let code_reuse = (code / k3) % (1 << n_sections);
+        let mut code = code / k3 >> n_sections;
         let mut sections = Vec::new();
         for _ in 0..n_sections {
             let c = code % per_sec as u64; code /= per_sec as u64;
@@ -260,14 +265,14 @@ fn exhaustive(run: &Run, n_sections: usize) {
             let mut mentions = Vec::new();
             if let Some(m) = a { mentions.push((3, m)); }
             if let Some(m) = b { mentions.push((4, m)); }
-            sections.push(SecPlan { stream_format, mentions, split: false, filter: 0, new_root: false, grow: 0, keep_gen_on_free: (code_keep >> sections.len()) & 1 == 1, reuse_xref_nr: (code_reuse >> sections.len()) & 1 == 1 });
+            sections.push(SecPlan { stream_format, mentions, split: false, filter: 0, new_root: false, grow: 0, free_gen: ((code_keep / 3u64.pow(sections.len() as u32)) % 3) as u8, reuse_xref_nr: (code_reuse >> sections.len()) & 1 == 1 });
         }
         let plan = Plan { n_objs: 4, sections };
         // well-formedness: skip plans whose mentions would be dropped by build (compressed in a table section)
         if plan.sections.iter().any(|s| !s.stream_format && s.mentions.iter().any(|(_, m)| *m == Mention::Compressed)) { return; }
         // the re-use flag means something only for a stream-format update that follows a stream-format section; the keep flag only where a section frees
         if plan.sections.iter().enumerate().any(|(i, s)| s.reuse_xref_nr && (i == 0 || !s.stream_format || !plan.sections[..i].iter().any(|p| p.stream_format))) { return; }
-        if plan.sections.iter().any(|s| s.keep_gen_on_free && !s.mentions.iter().any(|(_, m)| *m == Mention::Free)) { return; }
+        if plan.sections.iter().any(|s| s.free_gen != 0 && !s.mentions.iter().any(|(_, m)| *m == Mention::Free)) { return; }
         run.eval();
         let b = build(&plan);
         run.nontrivial(fnv(&b.bytes));
@@ -277,7 +282,7 @@ fn exhaustive(run: &Run, n_sections: usize) {
             run.violation(&sig, &detail, witness(&plan));
         }
     });
-    run.exhaustive(&format!("2 tracked objects x {} sections x {{absent, direct, compressed, free}} x {{table, stream}} x {{free entry adds one to / keeps the generation}} x {{fresh / re-used xref stream number}} (well-formed subset)", n_sections), true);
+    run.exhaustive(&format!("2 tracked objects x {} sections x {{absent, direct, compressed, free}} x {{table, stream}} x {{free entry adds one to the generation / keeps it / writes 65535}} x {{fresh / re-used xref stream number}} (well-formed subset)", n_sections), true);
 }
 
 pub fn run(run: &Run) {
